@@ -156,6 +156,16 @@ def accuracy_scores(family, n, m, nlabels):
     parts["summary_counting_definitions"] = all(abs(x - y) < 1e-12 if not _undef(x) and not _undef(y) else _undef(x) == _undef(y)
                                                 for x, y in zip((a, p, r, f), exp))
     parts["summary_in_unit_interval"] = all(_undef(v) or (0 <= v <= 1) for v in (a, p, r, f))
+    # scene-level use: the same per-frame lists evaluated twice (as once per call of get_scene_result)
+    frames = {k: [list(v), list(v)] for k, v in buckets.items()}
+    before = {k: [list(f) for f in v] for k, v in frames.items()}
+    nums2 = {k: 2 * v for k, v in nums.items()}
+    s1 = ClassificationMetricsScore(frames, nums2, labels)._summarize()
+    s2 = ClassificationMetricsScore(frames, nums2, labels)._summarize()
+    parts["nested_input_untouched"] = all(len(frames[k]) == 2 and all(len(a) == len(b) and all(x is y for x, y in zip(a, b))
+                                                                      for a, b in zip(frames[k], before[k])) for k in frames)
+    parts["second_evaluation_equal"] = all((_undef(x) and _undef(y)) or x == y for x, y in zip(s1, s2))
+    parts["two_identical_frames_same_ratios"] = all((_undef(x) and _undef(y)) or abs(x - y) < 1e-12 for x, y in zip(s1, (a, p, r, f)))
     perfect = n == m and n > 0 and len(res) == n and all(
         r.ground_truth_object is not None and r.ground_truth_object.semantic_label.label == r.estimated_object.semantic_label.label
         for r in res)
